@@ -219,9 +219,14 @@ def guarded(f):
 
 # ------------------------------------------------------------------------------------------------
 # the specification, written directly (independent of expand_operator and of the model)
-def compact_matrix(qc, gate):
-    """the gate's defining matrix as the circuit itself resolves it"""
-    return qc._get_gate_unitary(gate).full()
+def compact_matrix(qc, gate, utab=None):
+    """the gate's defining matrix: for a user gate what the user supplied (the stored operator, f() or
+    f(arg_value)), evaluated by the harness itself; for a library gate its own compact matrix (C09)"""
+    if utab and gate.name in utab:
+        u = utab[gate.name]
+        M = val_mat(u.mat)
+        return gate.arg_value * M if u.kind == "fn1" else M
+    return gate.get_compact_qobj().full()
 
 
 def embed_np(U, qs, N):
@@ -245,13 +250,13 @@ def apply_np(U, qs, N, psi):
     return T.reshape(psi.shape)
 
 
-def dense_product(qc, N):
+def dense_product(qc, N, utab=None):
     D = np.eye(2 ** N, dtype=complex)
     for g in qc.gates:
         if g.name == "GLOBALPHASE":
             D = np.exp(1j * g.arg_value) * D
         else:
-            D = embed_np(compact_matrix(qc, g), g.get_all_qubits(), N) @ D
+            D = embed_np(compact_matrix(qc, g, utab), g.get_all_qubits(), N) @ D
     return D
 
 
@@ -386,8 +391,19 @@ class C01(PropertyCheck):
     technique = ("Lean 4 proof (list combinatorics of the einsum index lists; contraction = embedded operator via the split "
                  "equivalence; induction over the gate list; invariant of the block list of the compact product) + "
                  "exact model/implementation correspondence")
-    level_text = ""
-    level_note = ""
+    level_text = ("Lean 4 theorems over the executable model (the same definitions the driver runs, instantiated with C), for every "
+                  "register size, every injective in-range placement, every measurement-free circuit of library or user gates "
+                  "(GLOBALPHASE as a scalar) and every input state: the index lists of the einsum call are characterised; one step is "
+                  "the contraction they prescribe (over arbitrary scalars) and equals multiplication by the embedded gate matrix; "
+                  "ket, operator-valued and density-matrix runs, compute_unitary, the expanded propagators and their left-to-right "
+                  "product, and the compact product (block-merging heuristic with the sorting oracle, all recursion depths) equal "
+                  "the ordered product denP of the embedded gate matrices. An unsorted set order breaks the compact product "
+                  "(counter-example proved in the kernel, witness confirmed on CPython with 9 qubits). The model is tied to the "
+                  "code by an exact correspondence (amplitudes in Z[zeta16][1/2]) over every placed library gate on 1-3 qubits, "
+                  "pairs of placed gates, seeded random circuits up to 6 qubits with user gates, and 9-11(12) qubit compact products.")
+    level_note = ("The theorems describe the code repaired by fixes/C01-1/2/3.patch; on the unpatched tree the check reports the three "
+                  "defects as violations. Trusted: Lean kernel; the meaning of np.einsum / reshape / tensor / permute / dag / ket2dm as "
+                  "written in the model (validated by the correspondence); the library gates' matrices are those of C09.")
     trusted_base = [
         "Lean 4.33 kernel; axioms propext, Classical.choice, Quot.sound",
         "meaning of np.einsum with explicit index lists, ndarray.reshape (row-major), qutip.tensor, Qobj.permute, "
@@ -759,9 +775,10 @@ class C01(PropertyCheck):
         import qutip
         from qutip_qip.circuit import CircuitSimulator
         from qutip_qip.operations import gate_sequence_product
+        utab = {u.name: u for u in ugs}
         try:
             qc = build_circuit(N, gates, ugs)
-            D = dense_product(qc, N)
+            D = dense_product(qc, N, utab)
         except Exception as e:
             return True, "building the circuit / its dense product raised " + repr(e)
         dim = 2 ** N
@@ -803,7 +820,7 @@ class C01(PropertyCheck):
             # compare on the used qubits: the dense product restricted to them
             Dc = np.eye(2 ** len(used), dtype=complex)
             for g, i in zip(qc.gates, inds):
-                M = np.exp(1j * g.arg_value) * np.eye(2 ** N) if g.name == "GLOBALPHASE" else compact_matrix(qc, g)
+                M = np.exp(1j * g.arg_value) * np.eye(2 ** N) if g.name == "GLOBALPHASE" else compact_matrix(qc, g, utab)
                 Dc = embed_np(M, [used.index(q) for q in i], len(used)) @ Dc
             return U.full(), Dc
 
